@@ -39,6 +39,10 @@ CHECKS = {
         technique="explicit-state breadth-first search over operation histories of the real Writer (replay-from-fresh, canonical state merging) against a reference model list",
         text="All histories over the write/flush/copy/failed-write/reopen alphabet to the stated depth are explored breadth-first on the real Writer with sound state merging; after every flush/reopen the real reader and an independent parser must return exactly the model list and the header must be unchanged; the pending buffer must match block_count after every operation.",
         note=PURE + " Depth bound stated in evidence (depth_completed)."),
+    "C08": dict(engine=E1, category="exploration", design_ref="DESIGN.md 4/C08",
+        technique="bounded exhaustive enumeration of (writer schema, every single evolution step at every position, datum) triples against a three-valued resolution reference",
+        text="For every writer schema of the (namespace-free) family and hand-written evolution schemas, every single evolution step (thorough: pairs) at every position gives a reader schema; every D_1 datum is read by schemaless_reader and by the container reader and compared with the reference: VALUE (type- and bit-exact), ERROR (SchemaResolutionError), or EITHER where an empty collection hides an element-type incompatibility.",
+        note=PURE + " Kind change of a named type under the same name and logical types are outside the step alphabet."),
     "C09": dict(engine=E1, category="exploration", design_ref="DESIGN.md 4/C09",
         technique="bounded exhaustive enumeration of union shapes x contexts x data x hints x options against the reference branch rule; byte-level read/write closure",
         text="Every ordered union of 2 (thorough 3) branches over an 18-element branch pool in six contexts (incl. by-name spellings) times every D_1 datum, ambiguous record data and hints, under both tuple-notation settings: the written index must be a conforming branch, identical for raw/parsed/repeated writes, follow the C09 rule where it is defined and honour hints; reading with each named-type option and writing back must reproduce the bytes wherever the statement claims it.",
@@ -51,10 +55,18 @@ CHECKS = {
         technique="bounded exhaustive enumeration: every family schema must parse with the reference's names; every single ill-forming mutation at every position must be rejected",
         text="Valid side: names table and canonical form equal the reference for the family, the namespace family and re-spellings, and every JSON type a field type accepts is accepted as default. Invalid side: each listed ill-forming mutation at every position of every family schema, decimal parameters for fixed sizes 0..16 at the boundary precisions, and a hand-made list of cross-branch redefinitions must raise SchemaParseException/UnknownType.",
         note=PURE + " Ambiguous spellings (True as number, scale 0.0, precision 0) are kept out of the mutation alphabet."),
+    "C12": dict(engine=E1, category="exploration", design_ref="DESIGN.md 4/C12",
+        technique="bounded exhaustive enumeration of every subset of named types hoisted into separately parsed pieces x every public operation x D_1 data; metamorphic comparison of raw, parsed and piecewise forms",
+        text="For every family record schema with 1..4 named types, every subset of its non-top named types is parsed separately (raw pieces into a shared table, and pre-parsed pieces registered into a non-empty table) and only referenced; schemaless, container (read from the bytes alone), JSON, validate, canonical form and generate_one must give the same result as the raw form; unions of separately parsed records and parse_schema(parsed) are checked too.",
+        note=PURE + " Only top-level records can carry the name table, so other top-level kinds are not piecewise-expressible."),
     "C13": dict(engine=E1, category="exploration", design_ref="DESIGN.md 4/C13",
         technique="bounded exhaustive enumeration of every single cosmetic rewrite at every position against a rule-list canonicaliser",
         text="For every family schema and namespace re-spelling, every single cosmetic rewrite at every position (pairs in thorough) must leave to_parsing_canonical_form equal to the reference text; the text is a fixed point, parses, and encodes/decodes D_1 data identically to the original.",
         note=PURE + " Schemas whose specification canonical form is itself lossy (null-namespace type nested in a namespace) are excluded from the fixed-point/encoding clauses and counted."),
+    "C15": dict(engine=E1, category="exploration", design_ref="DESIGN.md 4/C15",
+        technique="bounded exhaustive enumeration of family x D_1 record lists and of every nesting-context word of length <=3 over {record field, array item, map value, union branch} against an independent JSON encoder and the binary codec",
+        text="Each output line must json.loads to the reference JSON encoding, json_reader must return the records, they must equal the binary decode by value, and documents with defaulted keys removed must yield the defaults; context words cover every nesting of the pushdown encoder/decoder up to the stated length with 0/1/2 items per level, plus recursion, map keys equal to field names, empty keys, and record lists around buffering boundaries.",
+        note=PURE + " Non-finite floats and inexact ints under float/double excluded (no JSON representation / value mismatch by construction)."),
     "C16": dict(engine=E1, category="exploration", design_ref="DESIGN.md 4/C16",
         technique="exhaustive enumeration of whole or factored value domains of each logical type against integer-arithmetic conversions",
         text="All 3.65M dates; every second x sub-second set (+ dense ranges) for the time types; boundary years/days, month ends, every whole-minute offset at boundary instants for the four timestamp types; single-bit UUIDs; every coefficient x exponent x sign for precisions 1..3 (thorough 4) x every scale x bytes and fixed sizes, plus size boundaries to 16 bytes: representation bytes, round trip and the must-raise clause are checked.",
@@ -67,6 +79,10 @@ CHECKS = {
         technique="stateless schedule exploration of real threads under a sys.settrace baton scheduler, iterative preemption bounding (all schedules with <= b preemptions)",
         text="All unordered pairs (incl. self-pairs) of 14 operations chosen for the shared state they touch, two real threads on distinct streams sharing parsed schemas; every schedule with at most 1 preemption (2 for the small pairs; thorough 2/3, opcode granularity in the shared-state files, triples) is executed at line granularity and each thread's result compared with its solo result.",
         note=PURE + " Code outside /repo/fastavro is atomic in this model; bound stated per unit in the evidence."),
+    "C19": dict(engine=E1, category="exploration", design_ref="DESIGN.md 4/C19",
+        technique="exhaustive enumeration of every dependency DAG on <=3 (thorough 4) named types x namespaces x edge realisations (<=2 deviations) as real file repositories, against a reference inliner",
+        text="Every DAG with every sink kind and namespace assignment is written as one file per type; load_schema must give the canonical form and encodings of the types inlined at first use, load_schema_ordered must agree for every dependencies-first order, and removing any one file must raise an error naming exactly that type.",
+        note=PURE),
     "C20": dict(engine=E2, category="model_checking", design_ref="DESIGN.md 4/C20",
         technique="model checking of the environment: the library's random source is scripted and every answer sequence within a deviation bound is explored (stateless DFS with prefix replay)",
         text="For every family schema, every logical type and recursive schemas, every execution of generate_many with at most 2 (thorough 3) non-default answers of the scripted random/uuid source is run; counts, reference conformance, validate, both writers and read-back are checked on every generated value; interleaved live generators over same-named twin schemas are explored too.",
